@@ -223,9 +223,23 @@ fn handle_put<R: Read, W: Write>(
                 }
             }
             Cas::Conflict => {
-                // Never overwrite on a stale CAS — land a conflict-copy.
+                // Never overwrite on a stale CAS — land a conflict-copy. Nor may the copy
+                // overwrite anything: a client may since have committed other content AT the
+                // conflict-copy's name. The name is derived from the hash, so a file there
+                // with the same hash is these very bytes; anything else keeps its place and
+                // the copy moves one conflict-suffix further.
                 let mut cn = dst.as_os_str().to_owned();
-                cn.push(format!(".conflict-{}", super::wire::short_hash(&hash)));
+                loop {
+                    cn.push(format!(".conflict-{}", super::wire::short_hash(&hash)));
+                    match current_hash(Path::new(&cn)) {
+                        Ok(Some(h)) if h != hash => {}
+                        Ok(_) => break,
+                        Err(_) => {
+                            let _ = std::fs::remove_file(&tmp);
+                            return Response::Error("cannot store the conflict-copy".into());
+                        }
+                    }
+                }
                 if std::fs::rename(&tmp, PathBuf::from(cn)).is_err() {
                     let _ = std::fs::remove_file(&tmp);
                     return Response::Error("cannot store the conflict-copy".into());
